@@ -103,6 +103,15 @@ def cut(func, loop_ordinal=0):
 
 def instantiate(func, code, namespace):
     """exec the cut function definition in `namespace` (a dict) and return the function object."""
+    import types
     ns = dict(namespace)
+    # helper functions of the same module (whatever their names) must see the same stubbed globals as the cut function:
+    # every plain function defined in func's module that the caller did not override is re-bound to `ns`
+    home = getattr(func, "__globals__", None)
+    if home is not None:
+        for k, v in list(ns.items()):
+            if isinstance(v, types.FunctionType) and v.__globals__ is home and home.get(k) is v:
+                ns[k] = types.FunctionType(v.__code__, ns, v.__name__, v.__defaults__, v.__closure__)
+                ns[k].__kwdefaults__ = v.__kwdefaults__
     exec(code, ns)
     return ns[func.__name__], ns
